@@ -81,7 +81,10 @@ class C18Oracle(worldprop.Oracle):
                             if nsx is None and c is not d:
                                 nsx = dict.get(d._namespaces, pfx)
                             by_rule = nsx is not None and nsx.uri + q.localpart == u
-                        if (r is not None and r.uri == u) or by_rule:
+                        # (only where the library's resolver finds no name at all: where it finds a name of another URI the
+                        # prefix has two meanings in this scope — an alias memo of the container against a declaration of
+                        # its document — which is C03's subject, not a look-up fault)
+                        if (r is not None and r.uri == u) or (by_rule and r is None):
                             spellings.append((form, s))
                     for form, x in spellings:
                         cc = copy.deepcopy(c)
